@@ -7,7 +7,7 @@ reg("C12", "experimental variograms vs their pairwise definition",
          "codes; 1-3 directions with npas 1-30, random or lattice-unit dpas, toldis 0.05-0.5, angular tolerance 1-90 deg, "
          "2-D angles / 3-D direction vectors (not normalised), bench, cylinder radius, irregular breaks, code criterion. "
          "grid (25%): DbGrid 1-3 D (rotated, offset), DirParam::createFromGrid, grid algorithm vs reference and vs the "
-         "general algorithm on the same data. genvar (7%): GENERAL1-3 on grids. vmap (8%): db_vmap on scattered 2-3 D data "
+         "general algorithm on the same data. genvar (7%): GENERAL1-3 on grids, one or two grid directions (equal lag counts). vmap (8%): db_vmap on scattered 2-3 D data "
          "and on grids (direct and FFT algorithms): every cell except the centre = the pairs whose separation vector "
          "(or its opposite) is nearest to the cell, sum of weights and mean term; FFT vs direct. vcloud (6%): db_vcloud "
          "cell counts = pairs kept by the direction whose (distance, half or full squared difference) is nearest to the "
